@@ -84,6 +84,25 @@ def check_pair(a, b, da, db, np, jaccarddist, jaccard, case, strided=False, chec
 			ok = {1.0 - d64, float(np.float32(1) - d32)}
 			if s not in ok:
 				raise Violation('index_not_one_minus', f'jaccard({tag}) = {s!r}, distance = {d64!r}, 1-d = {1.0 - d64!r}', case)
+	if (3 * len(a) + len(b)) % 5 == 0 and (a or b):
+		# the same values stored in the other byte order (arrays read from big-endian files): such an argument may be refused
+		# (ValueError / TypeError), but a distance that IS returned must be the exact one
+		sw_a = arr_a.astype(arr_a.dtype.newbyteorder())
+		sw_b = arr_b.astype(arr_b.dtype.newbyteorder())
+		for x, y, tag in ((sw_a, arr_b, 'swapped,native'), (arr_a, sw_b, 'native,swapped'), (sw_a, sw_b, 'swapped,swapped')):
+			for f, want in ((jaccarddist, exp_bits), (jaccard, None)):
+				try:
+					d = f(x, y)
+				except (ValueError, TypeError):
+					continue
+				except Exception as e:
+					raise Violation('exception', f'{f.__name__} raised {type(e).__name__}: {e} for byte-swapped dtypes {x.dtype},{y.dtype}', case)
+				if want is not None and J.float_to_bits(np.float32(float(d))) != want:
+					raise Violation('wrong_distance_byteorder', f'jaccarddist({tag}) = {float(d)!r} for dtypes {x.dtype},{y.dtype}; the exact distance is '
+					                f'{J.bits_to_float(exp_bits)!r}; |A|={len(a)} |B|={len(b)}', case)
+				if want is None and float(d) not in {1.0 - J.bits_to_float(exp_bits), float(np.float32(1) - np.float32(J.bits_to_float(exp_bits)))}:
+					raise Violation('wrong_distance_byteorder', f'jaccard({tag}) = {float(d)!r} for dtypes {x.dtype},{y.dtype}; one minus the exact distance is '
+					                f'{1.0 - J.bits_to_float(exp_bits)!r}', case)
 	return exp_bits
 
 
